@@ -125,8 +125,10 @@ def run_world(tape: Any, scenario: Dict[str, Any], mode_args: List[str], nacc: i
         except Exception as e:       # noqa
             from ..kernel import _short_tb
             w.fail('shutdown_raised', _short_tb(e), repr(e))
+        if w.hung:
+            scen.hang_failure(w)
         out['failures'] = list(w.failures)
-        out['hung'] = w.hung
+        out['hung'] = False
         out['digest'] = w.hexdigest()
         out['stats'] = dict(w.stats)
         out['now'] = w.now
